@@ -160,6 +160,76 @@ Proof.
 Qed.
 Print Assumptions C13_count_in_force.
 
+(* (9) without a COUNT argument (or COUNT <= 0) the default page size applies and the cursor becomes empty only
+   after an empty page: same result lists, at most |result|/default + 2 calls *)
+Theorem C13_coll_scan_forward_default_count :
+  forall (compile : bytes -> option (bytes -> bool)) (db : list bytes) (dt : N) (table key pat : bytes)
+         (m : bytes -> bool) (count : Z),
+    sorted_db db -> is_coll_type dt = true ->
+    N.of_nat (length table) < 65536 -> 0 < N.of_nat (length key) <= max_key_size ->
+    matcher compile pat = Some m -> (count <= 0)%Z ->
+    forall (start : bytes) (fuel : nat),
+      let R := filter m (filter (fun s => bytes_ltb start s) (elems dt table key db)) in
+      (length R / N.to_nat default_scan_count + 1 < fuel)%nat ->
+      exists pages,
+        iterate_coll compile fuel db dt table key true false start pat count = (pages, Done) /\
+        concat (map fst pages) = R /\
+        (length pages <= length R / N.to_nat default_scan_count + 2)%nat.
+Proof. exact coll_scan_fwd0. Qed.
+Print Assumptions C13_coll_scan_forward_default_count.
+
+Theorem C13_coll_scan_reverse_default_count :
+  forall (compile : bytes -> option (bytes -> bool)) (db : list bytes) (dt : N) (table key pat : bytes)
+         (m : bytes -> bool) (count : Z),
+    sorted_db db -> is_coll_type dt = true ->
+    N.of_nat (length table) < 65536 -> 0 < N.of_nat (length key) <= max_key_size ->
+    matcher compile pat = Some m -> (count <= 0)%Z ->
+    forall (start : bytes) (fuel : nat),
+      let R := filter m (filter (fun s => bytes_ltb s start) (rev (elems dt table key db))) in
+      (length R / N.to_nat default_scan_count + 1 < fuel)%nat ->
+      exists pages,
+        iterate_coll compile fuel db dt table key true true start pat count = (pages, Done) /\
+        concat (map fst pages) = R /\
+        (length pages <= length R / N.to_nat default_scan_count + 2)%nat.
+Proof. exact coll_scan_rev0. Qed.
+Print Assumptions C13_coll_scan_reverse_default_count.
+
+Theorem C13_key_scan_forward_default_count :
+  forall (compile : bytes -> option (bytes -> bool)) (db : list bytes) (d : dtype) (table pat : bytes)
+         (m : bytes -> bool) (count : Z),
+    sorted_db db -> ~ In key_sep table ->
+    Forall (fun raw => extract_table raw <> None) (rawkeys d db) ->
+    ~ In (type_prefix d ++ wrap_cursor table []) db ->
+    matcher compile pat = Some m -> (count <= 0)%Z ->
+    forall (start : bytes) (fuel : nat),
+      let R := filter m (filter (fun s => bytes_ltb (wrap_cursor table start) s)
+                           (filter (same_table table) (rawkeys d db))) in
+      (length R / N.to_nat default_scan_count + 1 < fuel)%nat ->
+      exists pages,
+        iterate_keys compile fuel db d false table start pat count = (pages, Done) /\
+        concat (map fst pages) = R /\
+        (length pages <= length R / N.to_nat default_scan_count + 2)%nat.
+Proof. exact key_scan_fwd0. Qed.
+Print Assumptions C13_key_scan_forward_default_count.
+
+Theorem C13_key_scan_reverse_default_count :
+  forall (compile : bytes -> option (bytes -> bool)) (db : list bytes) (d : dtype) (table pat : bytes)
+         (m : bytes -> bool) (count : Z),
+    sorted_db db -> ~ In key_sep table ->
+    Forall (fun raw => extract_table raw <> None) (rawkeys d db) ->
+    ~ In (type_prefix d ++ wrap_cursor table []) db ->
+    matcher compile pat = Some m -> (count <= 0)%Z ->
+    forall (start : bytes) (fuel : nat),
+      let R := filter m (filter (fun s => bytes_ltb s (wrap_cursor table start))
+                           (filter (same_table table) (rev (rawkeys d db)))) in
+      (length R / N.to_nat default_scan_count + 1 < fuel)%nat ->
+      exists pages,
+        iterate_keys compile fuel db d true table start pat count = (pages, Done) /\
+        concat (map fst pages) = R /\
+        (length pages <= length R / N.to_nat default_scan_count + 2)%nat.
+Proof. exact key_scan_rev0. Qed.
+Print Assumptions C13_key_scan_reverse_default_count.
+
 (* ---------- non-vacuity: a concrete store ---------- *)
 (* hash t:h = {a, ab, b}, hash t:h2 = {a}, set t:h = {a}; KV keys t:a t:ab t:b t2:a u:a *)
 Definition ex_db : list bytes :=
@@ -194,4 +264,10 @@ Proof. vm_compute. reflexivity. Qed.
 (* REVSCAN t: from the empty cursor returns nothing (S1): the first reverse page is empty *)
 Example C13_ex_revscan_empty_cursor :
   iterate_keys mini_compile 5 ex_db KV true [116] [] [] 2 = ([([], [])], Done).
+Proof. vm_compute. reflexivity. Qed.
+
+(* HSCAN t:h without COUNT: everything, then the empty page *)
+Example C13_ex_hscan_default_count :
+  iterate_coll mini_compile 5 ex_db hash_type [116] [104] true false [] [] 0 =
+  ([([[97]; [97;98]; [98]], [98]); ([], [])], Done).
 Proof. vm_compute. reflexivity. Qed.
